@@ -379,6 +379,8 @@ def r5(ctx):
     apifw.check_forwarder(ctx, "C14.R5", "doc_open", "OpenRequest", ["open(req.doc_id,"], "Ok(OpenResponse)")
     apifw.check_forwarder(ctx, "C14.R5", "doc_close", "CloseRequest", ["close(req.doc_id)"], "Ok(CloseResponse)")
     apifw.check_forwarder(ctx, "C14.R5", "doc_status", "StatusRequest", ["get_state(req.doc_id)"], "Ok(StatusResponse(result-of-get_state))")
+    apifw.check_forwarder(ctx, "C14.R5", "doc_start_sync", "StartSyncRequest", ["start_sync(req.doc_id,req.peers)"], "Ok(StartSyncResponse)")
+    apifw.check_forwarder(ctx, "C14.R5", "doc_leave", "LeaveRequest", ["leave(req.doc_id,0)"], "Ok(LeaveResponse)")
     apifw.check_client(ctx, "C14.R5", "api::Doc::close", "CloseRequest")
     apifw.check_close_idempotent(ctx, "C14.R5")
     apifw.check_client(ctx, "C14.R5", "api::Doc::status", "StatusRequest")
